@@ -282,7 +282,25 @@ package updown
 //@   requires sorted(q.snpsSorted) && sorted(q.snpsPos)
 //@   requires forall(t, 0, len(recv(cIn)), len(recv(cIn)[t].snps) == len(recv(cIn)[t].snpsPos) && len(recv(cIn)[t].ambs) % 2 == 0)
 //@   requires forall(t, 0, len(recv(cIn)), sorted(recv(cIn)[t].snpsSorted))
+//@   # no target is dropped silently: in every iteration a target that is not on the --ignore list is compared (whichWay),
+//@   # and a compared target that passes the pairwise threshold and its bin's --dist limit reaches the bin logic; a bin
+//@   # holds min(number of such candidates, sizetotal) entries. The ghost flags are reset per iteration and judged at its
+//@   # end on EVERY path (including `continue`), so an added shortcut that skips a target fails [c08.every.target].
+//@   ghost gIgn bool = false
+//@   ghost gCmp bool = false
+//@   ghost gBinned bool = false
+//@   ghost gMissed int = 0
+//@   ghost gN0 int = 0
+//@   ghost gN1 int = 0
+//@   ghost gN2 int = 0
+//@   ghost gN3 int = 0
+//@   before call:whichWay#1: do gCmp = true
+//@   before switch#1: do gBinned = true; if direction == 0 { gN0++ }; if direction == 1 { gN1++ }; if direction == 2 { gN2++ }; if direction == 3 { gN3++ }
 //@   loop 2:
+//@     do-start gIgn = exists(k, 0, len(ignore), ignore[k] == target.id); gCmp = false; gBinned = false
+//@     do-end if !gIgn && !gCmp { gMissed++ }; if gCmp && distance >= 0 && distance <= distArray[direction] && !gBinned { gMissed++ }
+//@     invariant [c08.every.target] gMissed == 0
+//@     invariant [c08.bin.count] gN0 >= 0 && gN1 >= 0 && gN2 >= 0 && gN3 >= 0 && len(neighbours.same.catchment) == ite(gN0 < sizetotal, gN0, sizetotal) && len(neighbours.up.catchment) == ite(gN1 < sizetotal, gN1, sizetotal) && len(neighbours.down.catchment) == ite(gN2 < sizetotal, gN2, sizetotal) && len(neighbours.side.catchment) == ite(gN3 < sizetotal, gN3, sizetotal)
 //@     invariant len(sent(cOut)) == 0 && neighbours.qname == q.id && neighbours.qidx == q.idx && sizetotal >= 1
 //@     invariant len(neighbours.same.catchment) <= sizetotal && freshslice(neighbours.same.catchment) && len(neighbours.up.catchment) <= sizetotal && freshslice(neighbours.up.catchment) && len(neighbours.down.catchment) <= sizetotal && freshslice(neighbours.down.catchment) && len(neighbours.side.catchment) <= sizetotal && freshslice(neighbours.side.catchment)
 //@     invariant disjoint(neighbours.same.catchment, neighbours.up.catchment) && disjoint(neighbours.same.catchment, neighbours.down.catchment) && disjoint(neighbours.same.catchment, neighbours.side.catchment) && disjoint(neighbours.up.catchment, neighbours.down.catchment) && disjoint(neighbours.up.catchment, neighbours.side.catchment) && disjoint(neighbours.down.catchment, neighbours.side.catchment)
